@@ -7,6 +7,7 @@ import (
 	"crypto/rsa"
 	"fmt"
 	"math/big"
+	"strings"
 	"testing"
 
 	"github.com/cloudflare/circl/blindsign/blindrsa"
@@ -51,6 +52,16 @@ type protoCase struct {
 	key *rsaKey
 	vi  variantInfo
 	run int
+}
+
+// altGroup folds the alteration classes into the two root causes a finding
+// key distinguishes: a wrong value and a wrong length.
+func altGroup(class string) string {
+	switch {
+	case strings.HasPrefix(class, "short"), strings.HasPrefix(class, "long"), class == "empty", class == "nil", class == "one-byte", class == "double-length":
+		return "wrong-length"
+	}
+	return "wrong-value"
 }
 
 func protoRuns(name string) int {
@@ -245,9 +256,9 @@ func protoOne(c protoCase) {
 		p := lib.Try("blindrsa.Client.Finalize:"+a.class, a.data, func() { out, err = client.Finalize(ss[0].state, a.data) })
 		switch {
 		case p != nil:
-			protoViol(c, "finalize-panics", "blindrsa.Client.Finalize:"+a.class, "blind_sig", a.data, "panic", p.Value, "frame", p.TopFrame())
+			protoViol(c, "finalize-panics", "blindrsa.Client.Finalize:"+altGroup(a.class), "class", a.class, "blind_sig", a.data, "panic", p.Value, "frame", p.TopFrame())
 		case err == nil:
-			protoViol(c, "finalize-accepts-altered", "blindrsa.Client.Finalize:"+a.class, "honest_blind_sig", z, "altered_blind_sig", a.data, "returned", out,
+			protoViol(c, "finalize-accepts-altered", "blindrsa.Client.Finalize:"+altGroup(a.class), "class", a.class, "honest_blind_sig", z, "altered_blind_sig", a.data, "returned", out,
 				"returned_is_valid_signature", rsa.VerifyPSS(pub, crypto.SHA384, mHash, out, stdOpts) == nil)
 		default:
 			lib.Count("proto:finalize-altered-refused")
@@ -296,9 +307,9 @@ func protoOne(c protoCase) {
 		p := lib.Try("blindrsa.Signer.BlindSign:"+a.class, a.data, func() { out, err = signer.BlindSign(a.data) })
 		switch {
 		case p != nil:
-			protoViol(c, "signer-panics", "blindrsa.Signer.BlindSign:"+a.class, "input", a.data, "panic", p.Value, "frame", p.TopFrame())
+			protoViol(c, "signer-panics", "blindrsa.Signer.BlindSign:"+altGroup(a.class), "class", a.class, "input", a.data, "panic", p.Value, "frame", p.TopFrame())
 		case err == nil:
-			protoViol(c, "signer-accepts-out-of-range", "blindrsa.Signer.BlindSign:"+a.class, "input", a.data, "output", out)
+			protoViol(c, "signer-accepts-out-of-range", "blindrsa.Signer.BlindSign:"+altGroup(a.class), "class", a.class, "input", a.data, "output", out)
 		default:
 			lib.Count("proto:signer-refused")
 			lib.Count("proto:signer-refused:" + a.class)
